@@ -1220,3 +1220,13 @@ def _wrap_when_adapt(name, generic):
 _wrap_when_adapt('m_enum_next', m_g_next)
 _wrap_when_adapt('m_iter_next', m_g_next)
 _wrap_when_adapt('m_split_next', m_g_next)
+
+
+# ------------------------------------------------------------------ calling a closure / fn item through the Fn traits
+@model(r'^<.* as Fn(Mut|Once)?<.*>>::call(_mut|_once)?$')
+def m_fn_call(ex, st, c):
+    f = ex.deref(st, c.args[0])
+    tup = D(ex, st, c.args[1]) if len(c.args) > 1 else UNIT
+    args = list(tup.items) if isinstance(tup, Tup) else []
+    if not isinstance(f, (Closure, FnItem)): raise Unsupported('call of %r' % (f,))
+    return CallFn(f, args, lambda e_, s_, r: r)
